@@ -26,8 +26,16 @@
        nothing, or the same status and headers and a prefix of the body;
      - monitors on the recorded log: a complete response is the handler's unless the connection was accepted before;
        an abort is the handler's own abort, or that of an auth request with nothing delivered (authenticator / logger panic).
+   CBig: one connection, sequential requests with LARGE header blocks (one value of 8..64 KiB, hundreds of fields, several
+   hundred KiB in all) before and after an accepted authentication (harness/go/c02/c02big_test.go).  Checked as CConn, and
+   the recorded log is also replayed through the HTTP/3 front of model/C02_Front.v with the limit handleClient leaves in
+   force (front_limit = 1 MiB), every request carrying the size of its field section as the harness computed it:
+     - the action sequence must be accepted, the front must let every request through (no 431 of the library: all sizes
+       are below the limit) and the observables - authenticator / handler calls and responses - must be the recorded ones.
+   (The length of the encoded HEADERS frame is not visible to a client of the HTTP/3 library; it never exceeds the size of
+   the field section, which counts name + value + 32 per field, so the field section size stands for both.)
    Used by the generated run/C02/cases_*.v files; not part of any theorem. *)
-From Hy Require Import gen.ParamsC01 model.C01_ServerAuth corr.C01_Corr model.C02_Abort.
+From Hy Require Import gen.ParamsC01 model.C01_ServerAuth corr.C01_Corr model.C02_Abort model.C02_Front.
 Local Open Scope N_scope.
 
 Record rq := mkRq {
@@ -58,7 +66,8 @@ Record xrq := mkXRq {
 Inductive case :=
 | CConn (cfg : config) (masq_seen : bool) (table : list response) (log : list ev) (rs : list rq)
 | CGate (cfg : config) (masq_seen : bool) (table : list response) (log : list ev) (rs : list rq)
-| CAbort (cfg : config) (table : list mres) (log : list xev) (rs : list xrq).
+| CAbort (cfg : config) (table : list mres) (log : list xev) (rs : list xrq)
+| CBig (cfg : config) (masq_seen : bool) (table : list response) (log : list ev) (rs : list rq) (szs : list N).
 
 Definition check_rq (cfg : config) (q : rq) : bool :=
   let r := q_req q in
@@ -196,8 +205,39 @@ Definition check_abort (cfg : config) (table : list mres) (log : list xev) : boo
       x01_mon [] log && x02_mon masq [] log && forallb x_pad_in_range log
   end.
 
+(* ---------------------------------------------------------------- large header blocks: replay through the front *)
+
+(* the i-th HttpReq of the recorded action sequence with the i-th recorded field section size *)
+Fixpoint lift (szs : list N) (acts : list action) : list faction :=
+  match acts with
+  | [] => []
+  | HttpReq c r pad :: t =>
+      match szs with
+      | z :: zs => FReq c (mkWire r z z) pad :: lift zs t
+      | [] => FReq c (mkWire r 0 0) pad :: lift [] t
+      end
+  | a :: t => FAct a :: lift szs t
+  end.
+
+Definition no_431 (e : fev) : bool := match e with FE (F431 _ _) => false | _ => true end.
+
+Definition check_front (cfg : config) (ms : bool) (table : list response) (log : list ev) (szs : list N) : bool :=
+  let masq := table_masq table in
+  match frun front_limit cfg masq init (lift szs (acts_of log)) with
+  | None => false
+  | Some (_, ftr) =>
+      let ob := obs_of (base_tr front_limit ftr) in
+      forallb (fun c => obs_list_eqb (proj c true ms ob) (proj c true ms (obs_of log)) &&
+                        obs_list_eqb (proj c false ms ob) (proj c false ms (obs_of log)))
+              [0; 99] &&
+      forallb no_431 ftr && forallb (fun z => z <=? front_limit) szs &&
+      Nat.eqb (length szs) (length (filter (fun a => match a with HttpReq _ _ _ => true | _ => false end) (acts_of log)))
+  end.
+
 Definition check (c : case) : bool :=
   match c with
+  | CBig cfg ms table log rs szs =>
+      C01_Corr.check (CHist cfg 1 ms table log) && forallb (check_rq cfg) rs && check_front cfg ms table log szs
   | CConn cfg ms table log rs =>
       C01_Corr.check (CHist cfg 1 ms table log) && forallb (check_rq cfg) rs
   | CGate cfg ms table log rs =>
@@ -227,6 +267,7 @@ Definition explain_conc (c : case) : list N :=
   match c with
   | CConn _ _ _ _ _ => []
   | CAbort _ _ _ _ => []
+  | CBig _ _ _ _ _ _ => []
   | CGate cfg ms table log rs =>
       let masq := table_masq table in
       match run cfg masq init (acts_of log) with
@@ -237,6 +278,15 @@ Definition explain_conc (c : case) : list N :=
           (if c01_mon [] log then [] else [3]) ++ (if c02_mon masq [] log then [] else [4]) ++
           (if forallb pad_in_range log then [] else [5]) ++ (if forallb (check_rq cfg) rs then [] else [6])
       end
+  end.
+
+(* diagnosis helper for a failing CBig case *)
+Definition explain_big (c : case) : list N :=
+  match c with
+  | CBig cfg ms table log rs szs =>
+      (if C01_Corr.check (CHist cfg 1 ms table log) then [] else [1]) ++
+      (if forallb (check_rq cfg) rs then [] else [2]) ++ (if check_front cfg ms table log szs then [] else [3])
+  | _ => []
   end.
 
 Definition mismatches (l : list case) : list nat := mism_from check 0 l.
